@@ -40,6 +40,7 @@ Inductive out :=
 Inductive ev :=
 | EConnect (c : cid) (id : sid) (v5 clean : bool) (expiry : option Z) (w : option will)
 | ESubscribe (id : sid) (k : N)                      (* k = topic * 2 + (1 if No Local) *)
+| EUnsubscribe (id : sid) (t : topic)                (* UNSUBSCRIBE: the subscription to that topic, if any, is removed *)
 | EPublish (tag : N) (t : topic)                     (* by some other client, QoS 1 *)
 | EPublishBy (id : sid) (tag : N) (t : topic)        (* by the session of identifier id *)
 | ERetain (tag : N) (t : topic)                      (* the same with the RETAIN flag: also replaces the topic's retained message *)
@@ -187,6 +188,15 @@ Definition subscribe (s : st) (id : sid) (k : N) : st * list out :=
        map (ODeliver c) (retained_of (sub_topic k) (retained s)))
   end.
 
+Definition unsubscribe (s : st) (id : sid) (t : topic) : st * list out :=
+  let r := get id (sess s) in
+  match s_conn r with
+  | None => (s, [])
+  | Some _ =>
+      let subs := filter (fun k' => negb (N.eqb (sub_topic k') t)) (s_subs r) in
+      (mkSt (now s) (put id (mkS (s_conn r) (s_v5 r) (s_durable r) (s_expiry r) subs (s_queue r) (s_present r) (s_expire_at r) (s_will r) (s_will_at r)) (sess s)) (preempt s) (stopped s) (retained s), [])
+  end.
+
 (* Stop: every attached connection is closed (its will is published: the end is not a client
    DISCONNECT), timers are stopped and what they guard is handed to persistence *)
 Definition stop (s : st) : st * list out :=
@@ -203,6 +213,7 @@ Definition step (s : st) (e : ev) : st * list out :=
   match e with
   | EConnect c id v5 clean expiry w => if stopped s then (s, []) else connect s c id v5 clean expiry w
   | ESubscribe id t => subscribe s id t
+  | EUnsubscribe id t => unsubscribe s id t
   | EPublish tag t => publish s tag t
   | EPublishBy id tag t => publish_by (Some id) s tag t
   | ERetain tag t =>
